@@ -95,6 +95,60 @@ def budgets(spec):
     raise KeyError(name)
 
 
+_SHAPE_CODE = None
+
+
+def _shape_code():
+    """The assumed shape contracts of contracts/shapes.py (the strings the VC layer assumes about the
+    operation list of a Revolve-family schedule), compiled for native evaluation; implies() is lazy."""
+    global _SHAPE_CODE
+    if _SHAPE_CODE is None:
+        import ast
+        from contracts import shapes
+
+        class Lazy(ast.NodeTransformer):
+            def visit_Call(self, node):
+                self.generic_visit(node)
+                if isinstance(node.func, ast.Name) and node.func.id == "implies":
+                    return ast.BoolOp(ast.Or(), [ast.UnaryOp(ast.Not(), node.args[0]), node.args[1]])
+                return node
+
+        def comp(expr):
+            tree = ast.fix_missing_locations(Lazy().visit(ast.parse(expr, mode="eval")))
+            return compile(tree, "<shape>", "eval")
+        _SHAPE_CODE = ([(l, comp(e)) for l, e in shapes.SHAPE], comp(shapes.LIST_SHAPE))
+    return _SHAPE_CODE
+
+
+def operation_shape(sched):
+    """-> list of (label, detail): assumed contracts on sched._schedule that do not hold."""
+    ops = getattr(sched, "_schedule", None)
+    if ops is None:
+        return []
+    per_op, per_list = _shape_code()
+    env = {"is_pair": lambda x: isinstance(x, (list, tuple)) and len(x) == 2,
+           "scalar": lambda x: x, "len": len}
+    out = []
+    for k, op in enumerate(ops):
+        for label, code in per_op:
+            try:
+                ok = bool(eval(code, dict(env, self=op)))
+            except Exception as exc:
+                ok = False
+                label = "%s (%s)" % (label, type(exc).__name__)
+            if not ok:
+                out.append((label, "operation[%d] = %s %r" % (k, op.type, op.index)))
+                break
+        if len(out) >= 3:
+            break
+    try:
+        if not eval(per_list, dict(env, schedule=ops)):
+            out.append(("list_does_not_end_with_a_write", "last operation %s" % ops[-1].type))
+    except Exception as exc:
+        out.append(("list_does_not_end_with_a_write", type(exc).__name__))
+    return out
+
+
 def drive(spec, passes=1, keep_stream=True, max_actions=2_000_000, observe=True):
     """Run the real class, feeding every action to the executor.
 
@@ -116,6 +170,7 @@ def drive(spec, passes=1, keep_stream=True, max_actions=2_000_000, observe=True)
         res["error"] = (type(exc).__name__, str(exc)[:200], 0, "construct")
         res["stats"] = _stats(ex)
         return res
+    res["assumption"] = operation_shape(sched)
     if observe:
         try:
             if sched.is_running is not False:
